@@ -14,7 +14,9 @@ from pddl_plus_parser.exporters import TrajectoryExporter
 from pddl_plus_parser.lisp_parsers import TrajectoryParser
 
 
-WEIGHTS = {"chain": [3, 8, 1, 3, 0, 0, 2, 0, 0], "mixed": [2, 5, 1, 3, 1, 2, 2, 1, 1], "state": [1, 5, 1, 2, 3, 6, 1, 0, 1], "traj": [0, 2, 0, 0, 0, 1, 4, 3, 4]}
+KINDS = ["app", "apply", "newop", "applyop", "copy", "eq", "run", "export", "parse", "objs", "flconds"]
+WEIGHTS = {"chain": [3, 8, 1, 3, 0, 0, 2, 0, 0, 0, 0], "mixed": [2, 5, 1, 3, 1, 2, 2, 1, 1, 1, 1],
+           "state": [1, 5, 1, 2, 3, 6, 1, 0, 1, 2, 2], "traj": [0, 2, 0, 0, 0, 1, 4, 3, 4, 0, 0]}
 
 
 def proj_steps(triplets):
@@ -91,8 +93,7 @@ def run_case(case, opts):
 
     exporter = {False: TrajectoryExporter(dom, allow_invalid_actions=False), True: TrajectoryExporter(dom, allow_invalid_actions=True)}
     for _ in range(case["n_ops"]):
-        kind = rng.choices(["app", "apply", "newop", "applyop", "copy", "eq", "run", "export", "parse"],
-                           weights=WEIGHTS[case.get("weights", "mixed")])[0]
+        kind = rng.choices(KINDS, weights=WEIGHTS[case.get("weights", "mixed")])[0]
         sh = rng.choice(list(states))
         if kind == "app":
             pc = pick_call(states[sh], rng.random() < 0.5)
@@ -148,6 +149,19 @@ def run_case(case, opts):
                 ev.append({"c": "CopyState", "s": sh, "h": h, "out": {"st": pylib.project_state(states[h])}})
             except Exception as e:  # noqa: BLE001
                 ev.append({"c": "CopyState", "s": sh, "h": h, "out": {"exc": pylib.exc_name(e)}})
+        elif kind == "objs":
+            try:
+                out = {"names": sorted(states[sh].get_state_objects())}
+            except Exception as e:  # noqa: BLE001
+                out = {"exc": pylib.exc_name(e)}
+            ev.append({"c": "StateObjects", "s": sh, "out": out})
+        elif kind == "flconds":
+            try:
+                conds = states[sh].convert_fluents_to_numeric_conditions()
+                out = {"trees": [sexp_reader.read(c.to_pddl()) for c in conds]}
+            except Exception as e:  # noqa: BLE001
+                out = {"exc": pylib.exc_name(e)}
+            ev.append({"c": "FluentConditions", "s": sh, "digits": int(os.environ.get("NUMERIC_PRECISION", 4)), "out": out})
         elif kind == "eq":
             sh2 = rng.choice(list(states))
             try:
